@@ -16,7 +16,7 @@ ASSUMPTIONS = ["note durations of the inputs are default note values, so that on
                "when re-quantisation is on", "signature/key events are placed only on bars that exist (start < duration)"]
 REQUIRED_FLAGS = ["signature_change", "key_change", "note_crosses_bar_line", "unequal_track_lengths", "empty_track",
                   "one_tick_over", "exact_multiple", "meta_last", "requantise_on", "requantise_off", "three_tracks",
-                  "fragment_shrunk_by_requantisation"]
+                  "fragment_shrunk_by_requantisation", "two_voices_on_one_pitch_in_canonical_order"]
 
 SIG = {"44": (4, 4), "34": (3, 4), "24": (2, 4), "68": (6, 8), "58": (5, 8), "22": (2, 2), "716": (7, 16), "516": (5, 16), "32": (3, 2)}
 
@@ -61,7 +61,7 @@ def units(ctx):
     for nb in (15, 16, 17, 31, 32, 33, 48, 64, 65):
         yield ("bars", nb)
     for i, _ in enumerate(plans(ctx["B"])):
-        for fam in ("one", "two", "key", "three"):
+        for fam in ("one", "two", "key", "three", "voices"):
             if fam == "three" and i % 5:
                 continue
             yield (fam, i)
@@ -126,6 +126,18 @@ def gen_cases(unit, ctx):
     st, sigs = grid(plan)
     end = st[-1]
     al = alphabet(plan, p)
+    if fam == "voices":
+        # one track with two voices (channels 1 and 0) on ONE pitch: every pair of alphabet notes that touch (one ends where
+        # the other starts, same onset, same end), stored in insertion order and in the library's canonical order
+        hi = alphabet(plan, p, 1)
+        for a in hi:
+            for b in al:
+                if a[0] + a[1] == b[0] or b[0] + b[1] == a[0] or a[0] == b[0] or a[0] + a[1] == b[0] + b[1]:
+                    for order in ("sane", "canonical"):
+                        for q in (True, False):
+                            yield {"plan": plan, "keys": None, "meta": 0, "q": q, "order": order,
+                                   "tracks": [{"notes": [list(a), list(b)], "cap": end}, {"notes": [[6, 12, p + 7, 2, 50]], "cap": None}]}
+        return
     if fam == "one":
         sets = [[]] + [[n] for n in al] + [list(c) for c in itertools.combinations(al, 2) if lib.well_formed(c)]
         for ns in sets:
@@ -197,7 +209,9 @@ def check_case(case, ctx):
     seqs = []
     for ti in order:
         t = tracks[ti]
-        seqs.append(lib.seq_abs(t["notes"], events if ti == 0 else [], t["cap"], ch_events=0))
+        seqs.append(lib.seq_abs(t["notes"], events if ti == 0 else [], t["cap"], ch_events=0, order=case.get("order", "sane")))
+        if case.get("order") == "canonical" and len({n[3] for n in t["notes"]}) > 1:
+            R.flags.append("two_voices_on_one_pitch_in_canonical_order")
     before = [lib.obs(s) for s in seqs]
     try:
         bars = Sequence.sequences_split_bars(seqs, meta_track_index=meta, quantise_note_lengths=q)
